@@ -390,6 +390,11 @@ func (w *World) stableEscaped(al *ssa.Alloc, loc string) bool {
 					loads = append(loads, x)
 				}
 			case *ssa.Store:
+				// x = x (a named result copied back to itself before the deferred calls run)
+				// changes nothing
+				if ld, isLd := x.Val.(*ssa.UnOp); isLd && ld.Op == token.MUL && x.Addr == v && w.locKey(ld.X) == w.locKey(x.Addr) {
+					continue
+				}
 				writes = append(writes, x)
 			case *ssa.MakeClosure:
 				unstable = true // a closure may write at any later time
